@@ -752,7 +752,10 @@ class Interp:
                 emit(cur)
                 return
             g = gens[i]
-            for item in self.iterate(self.eval(g.iter, cur)):
+            items = self.iterate(self.eval(g.iter, cur))
+            if getattr(items, "sym_len", None) is not None:
+                self._comp_sym_len = items.sym_len
+            for item in items:
                 inner = Env(cur)
                 self.assign(g.target, item, inner)
                 if all(self.truth(self.eval(c, inner)) for c in g.ifs):
@@ -767,8 +770,12 @@ class Interp:
 
     def e_GeneratorExp(self, e: ast.GeneratorExp, env: Env) -> Any:
         out: List[Any] = []
+        self._comp_sym_len = None
         self._comp(e.generators, env, lambda en: out.append(self.eval(e.elt, en)))
-        return GenList(out)
+        r = GenList(out)
+        r.sym_len = self._comp_sym_len
+        self._comp_sym_len = None
+        return r
 
     def e_SetComp(self, e: ast.SetComp, env: Env) -> Any:
         out: List[Any] = []
@@ -796,7 +803,10 @@ class Interp:
         args: List[Any] = []
         for a in e.args:
             if isinstance(a, ast.Starred):
-                args.extend(self.iterate(self.eval(a.value, env)))
+                sv = self.eval(a.value, env)
+                if getattr(sv, "sym_len", None) is not None:
+                    self.ctx.__dict__["generic_star_len"] = sv.sym_len
+                args.extend(self.iterate(sv))
             else:
                 args.append(self.eval(a, env))
         kwargs: Dict[str, Any] = {}
@@ -1137,6 +1147,7 @@ class Interp:
     def call_funcval(self, fv: FuncVal, args: List[Any], kwargs: Dict[str, Any]) -> Any:
         q = self.qual_of(fv)
         bound0 = self.bind(fv, args, kwargs)  # arity errors surface before anything else
+        self._validate_contract(fv, args, kwargs, bound0)
         if q in self.contracts and q not in self.verifying:
             bound = bound0
             self.contracts_used.add(q)
@@ -1148,6 +1159,41 @@ class Interp:
         if q in self.inline:
             self.inlined_used.add(q)
         return self.run_body(fv, bound0)
+
+    def _validate_contract(self, fv: FuncVal, args: List[Any], kwargs: Dict[str, Any], bound: Dict[str, Any]) -> None:
+        """Contract of the decorators docstring_from / inherit_docstring (they are not
+        executed): the decorated callable is `_validate(f, unsupported_args)`, i.e. a call
+        that passes an unsupported argument with a value != its default raises ValueError
+        before f runs.  (Verified against docs._validate in contracts/jobs_docs.py.)"""
+        decos = fv.decorators
+        if fv.cls is not None and fv.name == "__init__":
+            decos = [d for d in fv.cls.decorators if _deco_base(d) == "inherit_docstring"]
+        else:
+            decos = [d for d in decos if _deco_base(d) == "docstring_from"]
+        if not decos or q_in(self.verifying, self.qual_of(fv) + "#raw"):
+            return
+        unsupported: List[str] = []
+        for d in decos:
+            if isinstance(d, ast.Call):
+                for kw in d.keywords:
+                    if kw.arg == "unsupported_args" and isinstance(kw.value, (ast.List, ast.Tuple)):
+                        unsupported += [e.value for e in kw.value.elts if isinstance(e, ast.Constant)]
+        if not unsupported:
+            return
+        a = fv.node.args
+        pos = [x.arg for x in a.posonlyargs + a.args]
+        passed = set(pos[: len(args)]) | set(kwargs.keys())
+        nd = len(a.defaults)
+        for name in unsupported:
+            if name not in passed or name not in pos:
+                continue
+            j = pos.index(name) - (len(pos) - nd)
+            if j < 0:
+                continue
+            default = self.eval(a.defaults[j], fv.env)
+            same = self.equals(bound[name], default)
+            if not self.truth(same):
+                raise PyRaise("ValueError", f"Support for the '{name}' argument has not been implemented")
 
     def qual_of(self, fv: FuncVal) -> str:
         return f"{fv.module.name}.{fv.qualname}"
@@ -1191,6 +1237,8 @@ class Interp:
 
 class GenList:
     """Result of a generator expression (evaluated eagerly)."""
+
+    sym_len: Any = None
 
     def __init__(self, items: List[Any]):
         self.items = items
@@ -1266,6 +1314,15 @@ def _assigned_names(stmt: ast.stmt) -> List[str]:
             if isinstance(n, ast.Name):
                 out.append(n.id)
     return out
+
+
+def _deco_base(d: ast.expr) -> str:
+    f = d.func if isinstance(d, ast.Call) else d
+    return f.attr if isinstance(f, ast.Attribute) else getattr(f, "id", "?")
+
+
+def q_in(s: Any, q: str) -> bool:
+    return q in s
 
 
 def _is_logger_call(e: ast.expr) -> bool:
